@@ -359,10 +359,20 @@ func (c *xsyncMapOf[K, V]) DeleteExpired() {
 	c.items.Range(func(k K, v itemOf[V]) bool {
 		i := v
 		if i.expiredWithNow(now) {
-			c.items.Delete(k)
-			if ec != nil {
-				evictedItems = append(evictedItems, kvOf[K, V]{k, i.v})
-			}
+			// The key may have been updated or removed since the snapshot was taken:
+			// delete it only if it still holds an expired item, under the bucket lock.
+			c.items.Compute(k, func(cur itemOf[V], loaded bool) (itemOf[V], bool) {
+				if !loaded {
+					return cur, true
+				}
+				if !cur.expiredWithNow(now) {
+					return cur, false
+				}
+				if ec != nil {
+					evictedItems = append(evictedItems, kvOf[K, V]{k, cur.v})
+				}
+				return cur, true
+			})
 		}
 		return true
 	})
